@@ -431,6 +431,22 @@ func (e *Engine) Evaluate(c *Case) ([]string, error) {
 			fails = append(fails, "generated file differs from the reference channel: "+obs.FirstDiff)
 		}
 	case "fails":
+		if c.Run.Sim != nil && c.Run.Sim.ReadFault != "" {
+			fired := false
+			for _, l := range run.Events {
+				if strings.HasPrefix(l, "read ") && strings.Contains(l, "fault="+c.Run.Sim.ReadFault) {
+					fired = true
+				}
+			}
+			if !fired {
+				// the tree reads its configuration through a call the seam does not own: the fault was
+				// not injected, so this case decides nothing (counted, never a violation)
+				e.mu.Lock()
+				e.FaultHits["read-seam-not-reached"]++
+				e.mu.Unlock()
+				break
+			}
+		}
 		_, _, xerr, nf, err := responseFile(run.Stdout)
 		if err != nil {
 			fails = append(fails, "stdout is neither empty nor a response: "+err.Error())
